@@ -20,7 +20,7 @@ from .. import jolt_corr as jc
 
 PID = "C01"
 PROOF_FILES = ["theories/Props/C01.v", "theories/Checker/Narrow.v", "theories/Checker/Shapes.v",
-               "theories/Spec/Convex.v", "theories/Base/RVec.v", "theories/Proofs/JoltLoop.v", "theories/Proofs/JoltStall.v", "theories/Proofs/JoltStallEx.v", "theories/Proofs/JoltAffine.v"]
+               "theories/Spec/Convex.v", "theories/Base/RVec.v", "theories/Proofs/JoltLoop.v", "theories/Proofs/JoltStall.v", "theories/Proofs/JoltStallEx.v", "theories/Proofs/JoltAffine.v", "theories/Proofs/JoltAffine2.v"]
 MAX_FLOAT = 1.7976931348623157e308
 CLIP = 100000.0
 
